@@ -57,7 +57,7 @@ CFG = {
     "repo_bins": ["jrsonnet-fmt"],
     "timeout": 1500,
     "assumptions": [
-        "layout idempotence (format∘format = format) is a hypothesis of test_accepts_fixpoint/produce_then_test_accepts, not a theorem; it is observed on generated valid programs × indent {tabs,2,4} (typed programs in three whitespace/comment styles, plus the `stress` stream: one-line / sparse-line-break / commented layouts behind prefixes of random width; and the `span` stream: tokens that span lines or contain tabs - quoted and verbatim strings with literal line breaks, tabs before / after / next to the first line break, CR, trailing blanks, `/* */` comments with tabs and differing indentation, text blocks with tabs, blank and whitespace-only lines, `|||-` - every enumerated shape at nesting depth 0..3 inside objects, arrays, calls, locals) and holds on all of them since the round-4 repairs",
+        "layout idempotence (format∘format = format) is a hypothesis of test_accepts_fixpoint/produce_then_test_accepts, not a theorem; it is observed on generated valid programs × indent {tabs,2,4} (typed programs in three whitespace/comment styles, plus the `stress` stream: one-line / sparse-line-break / commented layouts behind prefixes of random width; and the `span` stream: tokens that span lines or contain tabs - quoted and verbatim strings with literal line breaks, tabs before / after / next to the first line break, CR, trailing blanks, `/* */` comments with tabs and differing indentation, with and without a `*` gutter, gutter-only and empty lines, text directly behind `/*`, no text at all (`/**/`, `/***/`), stars next to the delimiters, lines of stars, nested-looking text, lines wider than 100 columns, CRLF; `//` and `#` comments with trailing blanks / tabs / no text; a comment glued to both neighbours directly behind and before every bracket kind and separator; a comment ending the file without a line end; text blocks with tabs, blank and whitespace-only lines, `|||-` - every enumerated shape at nesting depth 0..3 inside objects, arrays, calls, locals; NO shape is left out of generation since round 6) and holds on all of them since the round-4 repairs of the layout and the round-6 repairs of the comment re-indentation",
         "the sink theorems take the event list as given: that Parser::parse emits one Token per non-trivia kind and opens the root first is checked per input (wfb), not proved for the 900 lines of grammar functions",
         "crash-freedom of lexer, rowan parser, the event-side panic sites of Sink::finish, the printers and dprint-core is observed (random byte strings, token soup over the whole token vocabulary, mutated and truncated valid programs), not proved",
         "error ranges handed to the diagnostic model are the ones the real parser reported; that they satisfy start <= end <= len is not needed (format_meets_spec holds for arbitrary ranges)",
